@@ -101,7 +101,7 @@ class Trail:
 
 
 class Explorer:
-    def __init__(self, limit=400, presets=None):
+    def __init__(self, limit=1500, presets=None):
         self.work = [[]]
         self.limit = limit
         self.presets = presets or {}
@@ -1128,6 +1128,19 @@ class Interp:
         return self.compare(e.ops[0], l, r, e)
 
     def compare(self, op, l, r, node):
+        if isinstance(op, (ast.Is, ast.IsNot, ast.Eq, ast.NotEq)):
+            for a, b in ((l, r), (r, l)):
+                if isinstance(a, VOpaque) and a.tag.startswith("slicefield:") and isinstance(b, VNone):
+                    # a field of the caller's slice against None: not known - a fork that records its outcome
+                    from .torchmodel import slicefield_atom
+                    _, nm, field = a.tag.split(":")
+                    at = slicefield_atom(nm, field)
+                    pos = isinstance(op, (ast.Is, ast.Eq))
+                    known = self.facts.norm(at).const_value()
+                    if known is not None:
+                        return VBool((known == 1) == pos)
+                    vb = VBool(None, f"{nm}.{field} is None", lambda f: f.assume_eq(at, ONE, "guard"), lambda f: f.assume_eq(at, ZERO, "guard"))
+                    return vb if pos else _negate(vb)
         if isinstance(op, (ast.Is, ast.IsNot)):
             same = isinstance(l, VNone) and isinstance(r, VNone)
             if isinstance(r, VNone) or isinstance(l, VNone):
